@@ -26,6 +26,7 @@
 #include <Bpp/Numeric/Constraints.h>
 #include <Bpp/Numeric/DataTable.h>
 #include <Bpp/Numeric/Function/Operators/ComputationTree.h>
+#include <Bpp/Numeric/Matrix/Matrix.h>
 #include <Bpp/Numeric/Parameter.h>
 #include <Bpp/Numeric/ParameterList.h>
 #include <Bpp/Numeric/Prob/DiscreteDistribution.h>
@@ -59,7 +60,7 @@ template<class C> static void sinkAll(const C& c)
   for (const auto& s : c) sink(s);
 }
 
-enum Kind { K_NUMBER, K_WORDS, K_TOKENS, K_PROC, K_OPTIONS, K_VARS, K_GLOB, K_PATH, K_TABLE, K_DIST, K_INTERVAL, K_FORMULA, K_SEQ };
+enum Kind { K_NUMBER, K_WORDS, K_TOKENS, K_PROC, K_OPTIONS, K_VARS, K_VECTOR, K_GLOB, K_PATH, K_TABLE, K_DIST, K_INTERVAL, K_FORMULA, K_SEQ };
 
 struct Entry
 {
@@ -239,6 +240,31 @@ static std::vector<Entry> entries()
                  else if (v == 2) sink(ApplicationTools::getBooleanParameter("p", m, true, "", true, 5) ? 1u : 0u);
                  else sink(ApplicationTools::getStringParameter("p", m, "d", ".suffix", true, 5));
                }});
+  // header-only templates of ApplicationTools.h, as the option parser uses them
+  e.push_back({"app.getParameterT", "01-.e x", 3, K_NUMBER, [](const std::string& s, int v) {
+                 std::map<std::string, std::string> m = {{"p", s}};
+                 if (v == 0) sink(static_cast<size_t>(ApplicationTools::getParameter<int>("p", m, 1, "", true, 5)));
+                 else if (v == 1) sink(ApplicationTools::getParameter<double>("p", m, 1.5, "", true, 5));
+                 else sink(ApplicationTools::getParameter<std::string>("p", m, "d", "", true, 5));
+               }});
+  e.push_back({"app.getVectorParameter", "01,-() ", 5, K_VECTOR, [](const std::string& s, int v) {
+                 std::map<std::string, std::string> m = {{"p", s}};
+                 if (v == 0) sink(ApplicationTools::getVectorParameter<int>("p", m, ',', "", "", true, 5).size());
+                 else if (v == 1) sink(ApplicationTools::getVectorParameter<double>("p", m, ',', "", "", true, 5).size());
+                 else if (v == 2) sink(ApplicationTools::getVectorParameter<std::string>("p", m, ';', "", "", true, 5).size());
+                 else if (v == 3) sink(ApplicationTools::getVectorParameter<int>("p", m, ',', '-', "", "", true, false).size());
+                 else sink(ApplicationTools::getVectorParameter<int>("p", m, ' ', "", "", true, 5).size());
+               }});
+  e.push_back({"app.getVectorOfVectorsParameter", "01,() ", 2, K_VECTOR, [](const std::string& s, int v) {
+                 std::map<std::string, std::string> m = {{"p", s}};
+                 if (v == 0) sink(ApplicationTools::getVectorOfVectorsParameter<int>("p", m, ',', "", "", true, 5).size());
+                 else sink(ApplicationTools::getVectorOfVectorsParameter<double>("p", m, ',', "", "", true, 5).size());
+               }});
+  e.push_back({"app.getMatrixParameter", "01,() ", 2, K_VECTOR, [](const std::string& s, int v) {
+                 std::map<std::string, std::string> m = {{"p", s}};
+                 if (v == 0) sink(ApplicationTools::getMatrixParameter<int>("p", m, ',', "", "", true, false).getNumberOfRows());
+                 else sink(ApplicationTools::getMatrixParameter<double>("p", m, ',', "", "", true, false).getNumberOfRows());
+               }});
   e.push_back({"ft.paths", "a/.\\", 4, K_PATH, [](const std::string& s, int v) {
                  if (v == 0) sink(FileTools::getFileName(s, '/'));
                  else if (v == 1) sink(FileTools::getParent(s, '/'));
@@ -342,6 +368,32 @@ static std::string seedFor(Kind k, Rng& r)
       }
       s += "\n";
     }
+    return s;
+  }
+  case K_VECTOR:
+  {
+    // "(1,2,3)", "1,2-5,7", "((1,2),(3,4))" with extreme / missing elements
+    auto el = [&]() { return r.chance(1, 5) ? extremeNumber(r) : std::to_string(r.range(-3, 40)); };
+    std::string s;
+    size_t n = r.below(5);
+    bool nested = r.chance(1, 3);
+    for (size_t i = 0; i < n; ++i)
+    {
+      if (i) s += r.chance(1, 8) ? ", " : ",";
+      if (nested)
+      {
+        s += "(";
+        size_t k = r.below(4);
+        for (size_t j = 0; j < k; ++j) s += (j ? "," : "") + el();
+        s += ")";
+      }
+      else
+      {
+        s += el();
+        if (r.chance(1, 4)) s += "-" + el();
+      }
+    }
+    if (r.chance(2, 3)) s = "(" + s + ")";
     return s;
   }
   case K_GLOB: return randomString(r, "ab*", 0, 10);
@@ -519,6 +571,19 @@ int main(int argc, char** argv)
     else if (en->name == "nc.getVector") d = dictVectors();
     else if (en->name == "nc.seqFromString") d = dictSequences();
     else if (en->name == "iv.readDescription") d = dictIntervals();
+    else if (en->kind == K_VECTOR)
+    {
+      for (const auto& v : vectorValues()) d.push_back(v);
+      for (const auto& a : extremeValues())
+      {
+        d.push_back(a);
+        d.push_back("(" + a + ")");
+        d.push_back("(1," + a + ")");
+        d.push_back("((" + a + "),(1))");
+        for (const auto& b : extremeValues()) d.push_back(a + "-" + b);
+      }
+      for (const char* x : {"(", ")", "((", "))", "()", "(())", "((),())", "(1,(2)", "1-", "-1", "1--2", "5-1", "1-5", "0-100000", "(1-3,7)", ",", ",,", "(,)", " ", "( )", "(1 2)", "1 2"}) d.push_back(x);
+    }
     else if (en->kind == K_NUMBER)
     {
       for (const auto& v : longDigitNumbers()) d.push_back(v);
